@@ -1154,9 +1154,9 @@ Proof.
   destruct (pfind_def n s) as [[ps body]|]; reflexivity.
 Qed.
 
-Lemma pdefs_instr m : forallb psrc_t m = true -> forall n, pdefs_of (pinstr_module c ge m) n = itab (pdefs_of m) n.
+Lemma pdefs_instr m : forallb psrc_t m = true -> forall n, pdefs_of (pinstr_module0 c ge m) n = itab (pdefs_of m) n.
 Proof.
-  intros Hs n. unfold pinstr_module, itab. rewrite !pdefs_of_app, (pdefs_flat m n Hs).
+  intros Hs n. unfold pinstr_module0, itab. rewrite !pdefs_of_app, (pdefs_flat m n Hs).
   destruct (sub c E_init_module); cbn [pdefs_of pfind_def]; destruct (pdefs_of m n) as [[ps body]|]; try reflexivity;
     destruct (sub c E_exit_module); reflexivity.
 Qed.
@@ -1175,15 +1175,15 @@ Proof.
 Qed.
 
 (* ================================================================ the module *)
-Theorem pmodule_sim m : forallb psrc_t m = true -> forall d r sv,
-  psim (prun binop cmpop unop truth cval is_and c pol fuel d (pinstr_module c ge m) r sv)
-       (pref_module binop cmpop unop truth cval is_and c pol fuel ge d m r).
+Theorem pmodule_sim0 m : forallb psrc_t m = true -> forall d r sv,
+  psim (prun binop cmpop unop truth cval is_and c pol fuel d (pinstr_module0 c ge m) r sv)
+       (pref_module0 binop cmpop unop truth cval is_and c pol fuel ge d m r).
 Proof.
-  intros Hs d r sv. unfold prun, FragProg.pref_module.
-  pose proof (calls_agree (pdefs_of (pinstr_module c ge m)) (pdefs_of m) (pdefs_instr m Hs) (pdefs_src m Hs) d) as Hc.
-  set (call := pcall binop cmpop unop truth cval is_and c pol fuel (pdefs_of (pinstr_module c ge m)) d) in *.
+  intros Hs d r sv. unfold prun, FragProg.pref_module0.
+  pose proof (calls_agree (pdefs_of (pinstr_module0 c ge m)) (pdefs_of m) (pdefs_instr m Hs) (pdefs_src m Hs) d) as Hc.
+  set (call := pcall binop cmpop unop truth cval is_and c pol fuel (pdefs_of (pinstr_module0 c ge m)) d) in *.
   set (callr := pcallr binop cmpop unop truth cval is_and c pol fuel ge (pdefs_of m) d) in *.
-  unfold pinstr_module.
+  unfold pinstr_module0.
   set (g0 := fun _ : N => @None val).
   assert (HB : forall r sv p p', fl p = fl p' -> psim (pexec_l call None g0 (flat_map (pis c ge true) m) r sv p) (pref_l callr false true None g0 m r p')).
   { intros. apply (ploud_list call callr); [apply (ploud_all call callr Hc)|exact Hs|assumption]. }
@@ -1205,6 +1205,36 @@ Proof.
   - cbn [app]. assert (H0 : fl [] = fl [(E_init_module, 0, Some VNone)]) by (rewrite fl_single, Im; reflexivity).
     destruct (HX r sv [] _ H0) as (X1 & X2 & X3). unfold psim. cbn [pr_exc pr_env pr_log] in *. repeat split; try assumption.
     rewrite fl_cons, Im. exact X3.
+Qed.
+
+(* the module docstring: as written, first, silent; it defines no function *)
+Lemma prest_src m : forallb psrc_t m = true -> forallb psrc_t (prest m) = true.
+Proof.
+  destruct m as [|d rest]; [reflexivity|]. unfold prest. destruct (p_is_docstring d); [|auto].
+  cbn [forallb]. intros H. now apply andb_true_iff in H as [_ H].
+Qed.
+Lemma pdoc_prest m : pdoc m ++ prest m = m.
+Proof. destruct m as [|d rest]; [reflexivity|]. unfold pdoc, prest. now destruct (p_is_docstring d). Qed.
+Lemma prun_doc cc pp dd u d r sv : p_is_docstring dd = true ->
+  p_exc (prun binop cmpop unop truth cval is_and cc pp fuel d (dd :: u) r sv) = p_exc (prun binop cmpop unop truth cval is_and cc pp fuel d u r sv) /\
+  p_env (prun binop cmpop unop truth cval is_and cc pp fuel d (dd :: u) r sv) = p_env (prun binop cmpop unop truth cval is_and cc pp fuel d u r sv) /\
+  p_log (prun binop cmpop unop truth cval is_and cc pp fuel d (dd :: u) r sv) = p_log (prun binop cmpop unop truth cval is_and cc pp fuel d u r sv).
+Proof.
+  destruct dd; try discriminate. destruct r0 as [v| | |]; try discriminate.
+  destruct v as [|m sc| | | | | | | | | | |]; try discriminate. destruct sc; try discriminate. intros _.
+  unfold prun. change (pdefs_of (PExpr n (RExp (XConst m (SStr s))) :: u)) with (fun k => pdefs_of u k).
+  cbn [FragProg.pexec_l]. unfold pseq. cbn [FragProg.pexec_s FragFun.eval_r FragSem.eval_e pexc_of p_exc p_env p_saved p_log app].
+  repeat split; reflexivity.
+Qed.
+Theorem pmodule_sim m : forallb psrc_t m = true -> forall d r sv,
+  psim (prun binop cmpop unop truth cval is_and c pol fuel d (pinstr_module c ge m) r sv)
+       (pref_module binop cmpop unop truth cval is_and c pol fuel ge d m r).
+Proof.
+  intros Hs d r sv. unfold pinstr_module, FragProg.pref_module.
+  pose proof (pmodule_sim0 (prest m) (prest_src m Hs) d r sv) as M.
+  destruct m as [|dd rest]; [exact M|]. unfold pdoc, prest in *. destruct (p_is_docstring dd) eqn:Ed; [|exact M].
+  cbn [app]. destruct (prun_doc c pol dd (pinstr_module0 c ge rest) d r sv Ed) as (E1 & E2 & E3).
+  destruct M as (M1 & M2 & M3). unfold psim. rewrite E1, E2, E3. repeat split; assumption.
 Qed.
 
 
@@ -1397,14 +1427,22 @@ Proof.
   - cbn [pcall pcallr]. apply plain_step; assumption.
 Qed.
 
-Theorem pplain_module m : forallb psrc_t m = true -> forall d r sv,
-  pres_eq (prun binop cmpop unop truth cval is_and c0 pol0 fuel d m r sv) (pref_module binop cmpop unop truth cval is_and c pol fuel ge d m r).
+Theorem pplain_module0 m : forallb psrc_t m = true -> forall d r sv,
+  pres_eq (prun binop cmpop unop truth cval is_and c0 pol0 fuel d m r sv) (pref_module0 binop cmpop unop truth cval is_and c pol fuel ge d m r).
 Proof.
-  intros Hs d r sv. unfold prun, FragProg.pref_module.
+  intros Hs d r sv. unfold prun, FragProg.pref_module0.
   pose proof (plain_calls (pdefs_of m) (pdefs_src m Hs) d) as Hc.
   match goal with |- context [pref_l ?CR false true None ?G m r ?P] =>
     destruct (pplain_list _ CR c0 pol0 m (pplain_all _ CR Hc m) Hs false true None G r sv [] P) as [B1 B2] end.
   split; cbn [pr_exc pr_env]; assumption.
+Qed.
+Theorem pplain_module m : forallb psrc_t m = true -> forall d r sv,
+  pres_eq (prun binop cmpop unop truth cval is_and c0 pol0 fuel d m r sv) (pref_module binop cmpop unop truth cval is_and c pol fuel ge d m r).
+Proof.
+  intros Hs d r sv. unfold FragProg.pref_module.
+  pose proof (pplain_module0 (prest m) (prest_src m Hs) d r sv) as M.
+  destruct m as [|dd rest]; [exact M|]. unfold prest in *. destruct (p_is_docstring dd) eqn:Ed; [|exact M].
+  destruct (prun_doc c0 pol0 dd rest d r sv Ed) as (E1 & E2 & _). destruct M as (M1 & M2). unfold pres_eq. rewrite E1, E2. split; assumption.
 Qed.
 
 (* ================================================================ scoping: the instrumented copy of a body assigns no name the pristine copy does not assign
@@ -1612,8 +1650,8 @@ Proof. induction d as [|d IH]; intros f vs glob pre; [reflexivity|]. cbn [pcallr
 Theorem pref_module_indep d m r :
   pref_module binop cmpop unop truth cval is_and c1 P fuel ge d m r = pref_module binop cmpop unop truth cval is_and c2 P fuel ge d m r.
 Proof.
-  unfold FragProg.pref_module.
-  rewrite (indep_list _ _ m (proj2 (Forall_forall _ _) (fun s _ => indep_stmt _ _ (indep_calls (pdefs_of m) d) s))). reflexivity.
+  unfold FragProg.pref_module, FragProg.pref_module0.
+  rewrite (indep_list _ _ (prest m) (proj2 (Forall_forall _ _) (fun s _ => indep_stmt _ _ (indep_calls (pdefs_of (prest m)) d) s))). reflexivity.
 Qed.
 End RefIndep.
 
